@@ -13,7 +13,6 @@
 # See the License for the specific language governing permissions and
 # limitations under the License.
 
-import random
 
 import numpy as np
 
@@ -31,7 +30,7 @@ def get_counts(samples):
     return counts_dct
 
 
-def sample_from_probability_map(probability_map, shots):
+def sample_from_probability_map(probability_map, shots, rng):
     """Generate samples from a probability map.
 
     The samples are returned in a dict, where the keys are the possible outcomes, and
@@ -46,6 +45,7 @@ def sample_from_probability_map(probability_map, shots):
             probabilities.
         shots (Optional[int]): Number of samples to generate. If None, return the full
             probability map as a frequency map, filtered to non-zero probabilities.
+        rng (random.Random): The random number generator to draw the samples with.
 
     Returns:
         Dict[Tuple[int], Fraction]: Mapping from samples to their frequencies.
@@ -57,7 +57,7 @@ def sample_from_probability_map(probability_map, shots):
             if not np.isclose(probability, 0.0)
         }
 
-    samples = random.choices(
+    samples = rng.choices(
         population=list(probability_map.keys()),
         weights=list(probability_map.values()),
         k=shots,
